@@ -159,6 +159,7 @@ type step struct {
 	Delta int    `json:"delta,omitempty"` // ... plus Delta bytes
 	Park  string `json:"park,omitempty"`  // sealrace: schedule point of proxyFrac.Seal where the seal waits for the retention pass to start
 	Hold  bool   `json:"hold,omitempty"`  // sealrace: Release is kept back until the retention pass has finished
+	AddFirst bool `json:"add_first,omitempty"` // shrink: the limit additionally leaves room for the oldest fraction
 }
 
 type callRec struct {
@@ -349,6 +350,9 @@ func (d *driver) runHistory(h *history) error {
 					limit -= uint64(-s.Delta)
 				} else if s.Delta > 0 {
 					limit += uint64(s.Delta)
+				}
+				if s.AddFirst && len(cur) > 0 {
+					limit += cur[0].Full
 				}
 				// never push out the fraction that is being written to
 				simulate := func(lim uint64) int {
